@@ -1170,7 +1170,7 @@ def main(R):
         t1 = time.time()
         if ok:
             try:
-                stream_histories(R, 1200 if R.quick else 12000, 32 if R.quick else 45)
+                stream_histories(R, 1200 if R.quick else 8000, 32 if R.quick else 45)
             except TimeoutError:
                 R.broken.append("history stream: worker pool timed out (machine overloaded?)")
         t2 = time.time()
